@@ -121,6 +121,7 @@ def main():
                 plan.append((mode, i, e))
         pending = list(plan)
         running = []
+        retried = {}
         maxpar = int(os.environ.get('VERIF_JOBS', os.cpu_count() or 4))
         per_child_limit = budget * 4 + 180
 
@@ -165,6 +166,16 @@ def main():
                     rc = 'watchdog'
                 if rc is None:
                     still.append((mode, i, p, out, log, ts))
+                elif mode == 'pure' and isinstance(rc, int) and rc < 0 and not os.path.exists(out) \
+                        and retried.get((mode, i), 0) < 2:
+                    # the child interpreter itself was killed by a signal (e.g. SIGSEGV inside CPython while the
+                    # sys.monitoring scheduler switches threads): that says nothing about the code under test,
+                    # which is pure Python in this mode - run the same deterministic shard again (at most twice)
+                    retried[(mode, i)] = retried.get((mode, i), 0) + 1
+                    log.close()
+                    print('NOTE property=%s shard %s/%d: child interpreter died with signal %d, shard re-run (%d)'
+                          % (args.prop, mode, i, -rc, retried[(mode, i)]))
+                    pending.append((mode, i, next(e for m2, i2, e in plan if m2 == mode and i2 == i)))
                 else:
                     finish(mode, i, p, out, log, rc)
             running = still
